@@ -54,5 +54,5 @@ def _hunt(fid):
     return _history_is("hunt/%s" % fid)
 
 
-for _f in ("F53", "F54", "F55", "F56", "F57", "F58", "F59", "F60", "F61", "F62", "F63", "F64", "F65", "F66", "F67", "F68", "F73"):
+for _f in ("F53", "F54", "F55", "F56", "F57", "F58", "F59", "F60", "F61", "F62", "F63", "F65", "F66", "F67", "F68", "F73"):
     globals()["%s_hunt_witness" % _f] = _hunt(_f)
